@@ -709,19 +709,38 @@ impl ZiPatch {
             let base_files = crate::patch::recurse(base_directory);
             let new_files = crate::patch::recurse(new_directory);
 
-            // A set of files not present in base, but in new (aka added files)
+            // Compare the two trees by their paths relative to their own root
+            let base_relative: Vec<&Path> = base_files
+                .iter()
+                .filter_map(|item| item.strip_prefix(base_directory).ok())
+                .collect();
+            let new_relative: Vec<&Path> = new_files
+                .iter()
+                .filter_map(|item| item.strip_prefix(new_directory).ok())
+                .collect();
+
+            // A set of files not present in base (or present with different content), but in new (aka added files)
             let added_files: Vec<&PathBuf> = new_files
                 .iter()
                 .filter(|item| {
                     let metadata = fs::metadata(item).unwrap();
-                    !base_files.contains(item) && metadata.len() > 0 // TODO: we filter out zero byte files here, but does SqEx do that?
+                    let unchanged = item
+                        .strip_prefix(new_directory)
+                        .ok()
+                        .filter(|relative| base_relative.contains(relative))
+                        .map(|relative| Path::new(base_directory).join(relative))
+                        .is_some_and(|base_item| read(base_item).ok() == read(item).ok());
+                    !unchanged && metadata.len() > 0 // TODO: we filter out zero byte files here, but does SqEx do that?
                 })
                 .collect();
 
             // A set of files not present in the new directory, that used to be in base (aka removedf iles)
             let removed_files: Vec<&PathBuf> = base_files
                 .iter()
-                .filter(|item| !new_files.contains(item))
+                .filter(|item| {
+                    item.strip_prefix(base_directory)
+                        .is_ok_and(|relative| !new_relative.contains(&relative))
+                })
                 .collect();
 
             // Process added files
